@@ -14,7 +14,7 @@ RULE = ('Generated conformant documents of every selectable map (1-2 sets, 1-2 g
         'order; seg_count equals the recounted position in the set and cur_line_number the ordinal in the file. non-trivial = distinct (map, L) pairs that yielded >=1 tree.')
 ASSUMPTIONS = ['the intended map path and loop instance of each segment are the generator\'s ground truth',
                'position in the set is not asserted for ISA/GS/GE/IEA (they are outside any set)']
-REQUIRED_COUNTERS = ['docs:sibling-loops-interleaved', 'runs', 'runs:None', 'runs:absent-loop', 'trees', 'segments-compared', 'tree-segments-compared', 'runs:ISA_LOOP', 'runs:ST_LOOP']
+REQUIRED_COUNTERS = ['docs:interchanges-of-different-versions', 'docs:sibling-loops-interleaved', 'runs', 'runs:None', 'runs:absent-loop', 'trees', 'segments-compared', 'tree-segments-compared', 'runs:ISA_LOOP', 'runs:ST_LOOP']
 MIN_CASES = {'quick': 800, 'thorough': 20000}
 WATCHDOG_S = {'quick': 1200, 'thorough': 7200}
 
@@ -199,9 +199,32 @@ def run(ctx):
                 judge(ctx, doc, text, L, case, sigs)
                 n += 1
             ctx.sample({'map': label, 'loop_ids': ids, 'segments': len(doc.recs), 'text_head': text[:300]})
+    # files whose interchanges differ in version and type (00401 then 00501 or the other way round): the reader must pick the map again at every ISA / GS
+    for k, e in enumerate(entries):
+        if not ctx.mine(('mixed', e['file'], e.get('tspc'))):
+            continue
+        others = [x for x in entries if x['icvn'] != e['icvn']]
+        if not others:
+            continue
+        o = others[(k * 7 + ctx.seed) % len(others)]
+        try:
+            a = gen_doc.gen_document(e, zlib.crc32(repr((ctx.seed, 'mixA', k)).encode()), fill=0.3, opt_prob=0.5, maxrep=1, charset='E', n_st=1)
+            b = gen_doc.gen_document(o, zlib.crc32(repr((ctx.seed, 'mixB', k)).encode()), fill=0.3, opt_prob=0.5, maxrep=1, charset='E', n_st=1)
+        except gen_doc.GenFailed:
+            continue
+        if len(a.recs) + len(b.recs) > 500:
+            continue
+        doc = gen_doc.concat_docs([a, b] if k % 2 == 0 else [a, b, a] if False else [b, a])
+        text = doc.text()
+        ctx.count('docs:interchanges-of-different-versions')
+        for L in [None, 'ISA_LOOP', 'GS_LOOP', 'ST_LOOP']:
+            judge(ctx, doc, text, L, {'mixed': [e['file'], o['file']], 'order': k % 2, 'loop_id': L, 'text': text if len(text) < 20000 else None}, sigs)
+            n += 1
     ctx.case(n=n, sigs=sorted(sigs))
 
 
 def replay(ctx, case):
+    if case.get('mixed'):
+        raise RuntimeError('mixed-version cases are regenerated from VERIF_SEED (re-run the check with the seed of the replay file); the stored text shows the input')
     doc = gen_doc.gen_document(case['entry'], case['gen_seed'], **case['params'])
     judge(ctx, doc, doc.text(), case['loop_id'], case, set())
